@@ -11,10 +11,32 @@ CLAIMED = {
          "The probability statement itself follows by two trusted textbook theorems (Ville; conditional mean under SRSWOR); known findings "
          "K1,K2,K3,K4,K6,K9 are estimator/test corners where a certificate clause fails on the unchanged tree.",
          "trusted: Ville's inequality, SRSWOR conditional mean; exact-real float model; numpy axioms; own VC generator", "§4.C01"),
+ "C02": ("proof", "Per-card: every plurality / super-majority assorter lambda the repository builds is executed symbolically on a fully symbolic "
+         "card (any subset of contests/candidates present, integer-encoded marks) and proved equal to (w-l+1)/2 resp. w/(2f)|1/2, in range, with the "
+         "right captured pair; lemma (unbounded n, induction on ghost sums): mean > 1/2 <=> winner has more votes / share > f; margin from tally = "
+         "2 mean - 1. Contest.tally and Assorter.mean code: bounded lists (n <= 3).",
+         "marks are integers (any numeric encoding), non-numeric encodings not modelled; candidate sets of the scripts are fixed (5 / 3 names)", "§4.C02"),
+ "C03": ("other", "Per-pair posts of Assorter.overstatement and Assertion.overstatement_assorter proved for fully symbolic (MVR, CVR) pairs with an "
+         "interface-contracted assorter; population identity proved as a lemma over ghost sums for unbounded n; pool means / margins / "
+         "add_pool_contests checked on bounded lists (n <= 3 symbolic cards).", "list-level code bounded; assorter abstracted by its interface", "§4.C03"),
+ "C04": ("other", "Bounded stand-in: exhaustive small profiles (2-3 candidates all multisets of <= 4-5 ballots, 4 candidates sampled) against a brute-force "
+         "oracle over all elimination orders and all true NEB/NEN assertions; ballot predicates proved in C14 scripts.", "bounded only for the search", "§4.C04"),
  "C05": ("proof", "Relational (two-run) obligations on the real code: histories of two samples agreeing in the first k draws agree in the first k "
          "entries; truncation leaves k-1 entries unchanged and the k-th equal or 0 when the total exceeds N t; every shipped estimator/bet entry j "
          "is a function of x_0..x_{j-1}. Unbounded in n via induction lemmas on ghost running sums/products.",
          "exact-real float model; numpy axioms; estimator interface for the abstract-estimator runs proved per shipped estimator", "§4.C05"),
+ "C06": ("other", "Range 0 <= B <= 2/(2-v/u) and u proved per symbolic pair; mvrs_to_data filter, order and u proved for lists of <= 3 symbolic "
+         "(MVR,CVR) pairs (all presence patterns); set_p_values proved to install u before each test call for bounded contest/assertion shapes; "
+         "IRV assorter values in {0,1/2,1} (C14 scripts).", "list length and contest/assertion shapes bounded", "§4.C06"),
+ "C07": ("other", "Bounded stand-in: every style assignment of <= 4-5 cards over 2 contests, sample-number orders, every admissible size vector, against "
+         "the property's closed form (selection, order, thresholds, flags); mvrs_to_data per-contest filter proved for bounded lists (C06 scripts).",
+         "bounded only", "§4.C07"),
+ "C08": ("other", "Scoring clauses (phantom MVR never increases B; phantom CVR scored 1/2) proved per symbolic pair; make_phantoms accounting: bounded "
+         "stand-in over all style assignments of <= 3-4 CVRs, bounds and style flags.", "accounting bounded", "§4.C08"),
+ "C09": ("other", "set_p_values / summarize_status / reset_p_values proved for every symbolic p-value, risk limit and proved-flag over bounded shapes "
+         "(1-3 contests x 1-2 assertions).", "shapes bounded", "§4.C09"),
+ "C10": ("other", "Bounded stand-in: two rounds with every pair of size vectors n <= n' on <= 4-5 cards, redraw and continue variants; p-value "
+         "monotonicity follows from C05/C11 (proved). Known finding K5 (continuation).", "bounded only", "§4.C10"),
  "C11": ("proof", "For symbolic n, N, u, t, parameters: history length n, every entry in [0,1] and not NaN, p in [0,1], p = min history (random order) "
          "or last entry, for alpha/betting (under the estimator/bet interface), Kaplan-Markov, Kaplan-Wald, Kaplan-Kolmogorov (padded regime), SPRT "
          "(inside regime); known findings K1,K3,K4,K9 recorded with replayed witnesses.",
@@ -26,10 +48,31 @@ CLAIMED = {
  "C13": ("proof", "Exact functional postconditions of every shipped estimator and bet plus range clauses, for symbolic n and parameters; Welford loop "
          "verified with a loop invariant; known findings K1,K2,K3,K6 proved outside their carve-outs and replayed inside.",
          "exact-real float model; sqrt axiomatised (s>=0, s*s=a)", "§4.C13"),
- "C16": ("proof", "NonnegMean.sample_size (deterministic branch): the hypothetical population is the pilot data tiled to length N and the result is the "
-         "first crossing of the history returned by the (abstract, interface-contracted) test, else N.",
-         "test abstracted by its C11 interface; exact-real model; simulation branch, Assertion.find_sample_size, interleave_values: see evidence", "§4.C16"),
+ "C14": ("other", "For every ranked ballot over 4 candidates (each listed or not, any distinct positions) the audit's IRV_ELIMINATION / WINNER_ONLY "
+         "assorter built by the real make_assertions_from_json equals (w-l+1)/2 of the real NEN/NEB verdicts, and the verdicts equal their closed "
+         "forms (proved, both modules executed symbolically on linked inputs); readers of the RAIRE format agree: bounded stand-in over small files; "
+         "re-applied tallies: RAIRE bounded stand-in (C04).", "candidate count fixed at 4 in the proved part; readers bounded", "§4.C14"),
+ "C15": ("other", "Bounded stand-in shared with C04: largest difficulty of the returned set equals max over alternative orders of the cheapest true "
+         "assertion contradicting it (brute force), both difficulty functions, with/without order hint.", "bounded only", "§4.C15"),
+ "C16": ("other", "NonnegMean.sample_size deterministic branch proved (tiling, first crossing, else N) for symbolic pilot length and N; data "
+         "construction of Assertion.find_sample_size, interleave counts, contest maximum, prefix-crossing simulations: bounded stand-ins. Known finding K7.",
+         "test abstracted by its C11 interface in the proved part", "§4.C16"),
+ "C17": ("other", "Bounded stand-in: all manifests of 1-3(4) batches with sizes 0..3, every valid sample number, both vendors, prep_manifest bounds, "
+         "CVR-driven look-up.", "bounded only; pandas trusted", "§4.C17"),
+ "C18": ("other", "Bounded stand-in: all record lists of <= 3 records over 2 ids with every flag / tally-pool combination (incl. falsy labels) against a "
+         "fold oracle; RAIRE reader: small files.", "bounded only", "§4.C18"),
+ "C19": ("other", "Bounded stand-in: generated exports (both layouts, mark multisets in every order, Modified before/after Original, obfuscated ids) x 16 "
+         "option settings against an oracle written from the property text.", "bounded (sampled) only; json / re trusted", "§4.C19"),
+ "C20": ("other", "Bounded stand-in: candidate sets of size 2-4(5), every alternative winner, single-assertion sets exhaustively and random assertion "
+         "sets, against brute force over all elimination orders; tags, marker and parseAssertions translation checked.", "bounded only", "§4.C20"),
 }
+TECH_PROOF = ("contract-based deductive verification: sidecar contracts on the real functions, VCs generated from /repo's AST by pyvc, "
+              "discharged by z3 (cvc5 on unknown); counter-models refuted at concrete lengths and replayed on the real code")
+TECH_MIX = ("contract-based deductive verification (pyvc VCs from /repo's AST, z3/cvc5) of the per-record contracts and lemmas; list / search level "
+            "by bounded stand-ins (structure-bounded symbolic obligations and exhaustive small-scope run-time contract checks), labelled bounded")
+TECH_BOUNDED = ("bounded stand-in only (exhaustive small-scope run-time contract checking of the real function against an oracle written from the "
+                "property text); the contract is stated but no deductive proof of this function is within reach of the VC generator yet")
+ONLY_BOUNDED = {"C04", "C15", "C07", "C10", "C17", "C18", "C19", "C20"}
 NA_REASON = "check not built yet (construction in progress; planned as in DESIGN.md §4)"
 
 def main():
@@ -47,7 +90,7 @@ def main():
             "engine": "pyvc",
             "level_claimed": {"category": cat, "text": text, "design_ref": "DESIGN.md " + ref},
             "level_note": note,
-            "technique": "contract-based deductive verification: sidecar contracts on the real functions, VCs generated from /repo's AST by pyvc, discharged by z3 (cvc5 on unknown); counter-models refuted at concrete lengths and replayed on the real code",
+            "technique": TECH_PROOF if cat == "proof" else (TECH_BOUNDED if pid in ONLY_BOUNDED else TECH_MIX),
         })
     m = {
         "version": 1,
